@@ -858,6 +858,10 @@ pub struct Bounds {
 }
 
 pub fn bounds(tier: &str) -> Bounds {
+    if tier == "mini" {
+        // reduced set for the cross-profile comparison of C16
+        return Bounds { max_payload_chain: 2, max_payload: 3, unary_single: 1, unary_chain_leaf: 0, unary_chain_top: 1, three_leaves: false, rich_leaves: false, depth: 2, depth_chain: 2 };
+    }
     if tier == "thorough" {
         Bounds { max_payload_chain: 6, max_payload: 6, unary_single: 3, unary_chain_leaf: 1, unary_chain_top: 2, three_leaves: true, rich_leaves: true, depth: 3, depth_chain: 2 }
     } else {
